@@ -20,20 +20,31 @@ func c10Scenarios(tier string) []*hist.Scenario {
 		{"cnt", []string{"init.c"}, []string{"c.inc1", "c.incmax"}},
 		{"tree", []string{"init.tr"}, []string{"tr.insT1", "tr.delP0", "tr.sty0"}},
 	}
+	add := func(f family, op string, k, y, e, d int) {
+		out = append(out, &hist.Scenario{
+			Name: fmt.Sprintf("c10/%s/%s/N2K%dY%dE%dD%d", f.name, op, k, y, e, d),
+			N:    2, Init: f.init, Alphabet: []string{op}, K: k, Y: y, D: d,
+			Env: []string{"compact", "compactF"}, E: e, Cfg: never,
+		})
+	}
+	// Upper bounds before no-effect pruning: K2Y2E1D1 12.8k histories, K1Y1E2D2
+	// 36.7k, K1Y2E2D2 260k, K2Y2E1D2 165k, K2Y2E2D2 1.1M (count10_test.go).
 	for _, f := range fams {
 		for oi, op := range f.ops {
-			if tier == "quick" && oi > 0 && f.name != "arr" {
+			if tier == "quick" {
+				if oi == 0 {
+					add(f, op, 2, 2, 1, 1)
+				}
+				if oi == 1 && (f.name == "obj" || f.name == "arr") {
+					add(f, op, 1, 1, 2, 2)
+				}
 				continue
 			}
-			k, y, e, d := 2, 2, 2, 2
-			if tier == "thorough" {
-				k, y, e, d = 2, 3, 2, 3
+			add(f, op, 2, 2, 1, 1)
+			add(f, op, 1, 1, 2, 2)
+			if oi == 0 {
+				add(f, op, 1, 2, 2, 2)
 			}
-			out = append(out, &hist.Scenario{
-				Name: fmt.Sprintf("c10/%s/%s/N2K%dY%dE%dD%d", f.name, op, k, y, e, d),
-				N:    2, Init: f.init, Alphabet: []string{op}, K: k, Y: y, D: d,
-				Env: []string{"compact", "compactF"}, E: e, Cfg: never,
-			})
 		}
 	}
 	return out
@@ -59,6 +70,16 @@ func c10LogLen(x *hist.Exec) int {
 	return len(infos)
 }
 
+// replayHead replays the whole stored log on an empty document (no cache, no
+// snapshot): the reference content of the server at the head.
+func replayHead(x *hist.Exec) (string, error) {
+	di, err := x.DocInfo()
+	if err != nil {
+		return "", err
+	}
+	return replayLog(x, di.ServerSeq)
+}
+
 func c10Before(x *hist.Exec, i int) {
 	st, _ := x.Data["c10"].(*c10State)
 	if st == nil {
@@ -68,7 +89,10 @@ func c10Before(x *hist.Exec, i int) {
 	e := x.Hist[i]
 	st.preLog = c10LogLen(x)
 	if e.K == "compact" || e.K == "compactF" {
-		st.preContent, _ = x.ServerMarshal(0)
+		// pure replay of the stored log: unlike a server rebuild it does not
+		// touch the snapshot cache, so observing does not repair (or mask) what a
+		// later rebuild would see
+		st.preContent, _ = replayHead(x)
 		if di, err := x.DocInfo(); err == nil {
 			st.preEpoch = di.Epoch
 		}
@@ -98,9 +122,9 @@ func c10After(x *hist.Exec, i int) {
 			if err == nil && di.Epoch <= st.preEpoch {
 				add("epoch-not-increased", "epoch-not-increased", fmt.Sprintf("epoch %d -> %d", st.preEpoch, di.Epoch))
 			}
-			post, err := x.ServerMarshal(0)
+			post, err := replayHead(x)
 			if err != nil {
-				add("server-rebuild-error", "server-rebuild-error:"+hist.NormErr(err.Error()), err.Error())
+				add("log-replay-error", "log-replay-error:"+hist.NormErr(err.Error()), err.Error())
 			} else if post != st.preContent {
 				add("compaction-changed-content", "compaction-changed-content", fmt.Sprintf("before: %s\nafter:  %s", st.preContent, post))
 			}
@@ -167,6 +191,18 @@ func c10Eval(r *hist.Runner, sc *hist.Scenario, h []hist.Event, res *Result) ([]
 			}
 		}
 		x.Quiesce()
+		// what an admin read / the next compaction / a snapshot pull would rebuild
+		// (through the snapshot cache as the history left it) against the pure
+		// replay of the stored log
+		if len(x.Viol) == 0 {
+			ref, e1 := replayHead(x)
+			got, e2 := x.ServerMarshal(0)
+			if e2 != nil {
+				x.Viol = append(x.Viol, hist.Violation{Kind: "server-rebuild-error", Sig: "server-rebuild-error:" + hist.NormErr(e2.Error()), Detail: e2.Error()})
+			} else if e1 == nil && ref != got {
+				x.Viol = append(x.Viol, hist.Violation{Kind: "diverge", Sig: "diverge:server-rebuild-vs-replay", Detail: fmt.Sprintf("rebuild: %s\nreplay:  %s", got, ref)})
+			}
+		}
 		convergenceOracle(x)
 		// a brand-new client sees exactly the server content
 		if len(x.Viol) == 0 {
